@@ -14,7 +14,8 @@ EXTENDS RegAllocInterp
 (* 64-bit registers q1..qW (W of WSet) share the GP file and are written with mixed widths; the skeleton "hdrloop"  *)
 (* adds registers P+4..P+7 that are defined first and updated/read only in the header of a loop with a two-block body *)
 (* (their liveness in the body exists only through the back edge; with P >= 66 the live sets span several words).      *)
-CONSTANTS JAnn,          \* subset of {TRUE, FALSE}: indirect jumps with / without a JumpAnnotation
+CONSTANTS TSet,          \* type salts: which TypeId of its width every virtual register gets (kInt64/kUInt64/kIntPtr.., typed vectors)
+          JAnn,          \* subset of {TRUE, FALSE}: indirect jumps with / without a JumpAnnotation
           PSet,          \* set of pressures to draw from
           QSet,          \* set of vector-register pressures (0 = no vector registers)
           WSet,          \* set of 64-bit general register counts (0 = none); they add to the GP pressure
@@ -23,8 +24,8 @@ CONSTANTS JAnn,          \* subset of {TRUE, FALSE}: indirect jumps with / witho
           BlockLen,      \* instructions per random block
           Randomized
 
-VARIABLES phase, P, Q, W, sk, hz, plan, prog, ms
-vars == <<phase, P, Q, W, sk, hz, plan, prog, ms>>
+VARIABLES phase, P, Q, W, T, sk, hz, plan, prog, ms
+vars == <<phase, P, Q, W, T, sk, hz, plan, prog, ms>>
 
 Inputs == << <<0, 0>>, <<1, 2>>, <<65535, 1>>, <<3, 65535>>, <<12345, 54321>>, <<256, 255>>, <<7, 7>>, <<40000, 2>> >>
 
@@ -41,7 +42,8 @@ FixedOps == <<"shl", "shr", "sar", "div", "idiv", "mul", "cmpxchg", "shl", "div"
 ExhOps == <<"shl", "div", "mul", "cmpxchg", "xchg", "call1", "sstx", "setcc", "mov">>      \* alphabet of the exhaustive mode
 CallOps  == <<"call1", "call2", "call1", "call2", "add", "mov", "sub", "shl", "div", "xor">>
 VecOps   == <<"vset", "vget", "vmov", "vxor", "vor", "vand", "vset", "vget", "vmov", "vxor">>
-WideOps  == <<"qset", "qhi", "qlo", "qmov", "qxor", "qmov32", "qsx", "qop0", "qop0", "qop0", "qset16", "qset8", "qhi", "qxor">>
+WideOps  == <<"qset", "qhi", "qlo", "qmov", "qxor", "qmov32", "qsx", "qop0", "qop0", "qop0", "qset16", "qset8", "qhi", "qxor",
+               "qsh", "qsh", "qsh", "call3", "call3", "call4", "call4", "shl", "mul", "div">>
 Op0s     == {"add", "sub", "xor", "or", "shl", "shr", "sar", "rol", "ror"}
 MemOps   == <<"st", "ld", "sst", "sld", "sstx", "sldx", "add", "mov", "xor", "sst", "sld", "imul">>
 OpsFor(h) == CASE h = "plain" -> PlainOps [] h = "fixed" -> PlainOps \o FixedOps \o FixedOps
@@ -52,9 +54,12 @@ OpsFor(h) == CASE h = "plain" -> PlainOps [] h = "fixed" -> PlainOps \o FixedOps
 (* the instruction(s) for a choice; operands a,b,c are distinct registers of 1..p (0 = not available) *)
 Mk(op, p, a, b, c, k, imm, cc, args, xa, xb, qa, qb, o0) ==
   CASE op = "movi" -> << <<"movi", a, imm>> >>
-    [] op \in {"qset", "qhi", "qlo", "qmov", "qxor", "qmov32", "qsx", "qop0", "qset16", "qset8"} /\ qa = 0 -> << <<"addi", a, imm>> >>
+    [] op \in {"qset", "qhi", "qlo", "qmov", "qxor", "qmov32", "qsx", "qop0", "qset16", "qset8", "qsh", "call3", "call4"} /\ qa = 0 -> << <<"addi", a, imm>> >>
     [] op = "qset" -> << <<"qset", qa, a, IF b = 0 THEN a ELSE b>> >>
     [] op \in {"qhi", "qlo"} -> << <<op, a, qa>> >>
+    [] op = "qsh" -> << <<"qsh", IF o0 \in {"shl", "shr", "sar"} THEN o0 ELSE "shl", a, qa>> >>
+    [] op = "call3" -> << <<"call3", a, qa, IF b = 0 THEN a ELSE b>> >>
+    [] op = "call4" -> << <<"call4", qa, a>> >>
     [] op \in {"qsx", "qset16", "qset8"} -> << <<op, qa, a>> >>
     [] op = "qop0" -> << <<"qop0", o0, qa>> >>
     [] op \in {"qmov", "qxor", "qmov32"} -> IF qb = 0 THEN << <<"qop0", o0, qa>> >> ELSE << <<op, qa, qb>> >>
@@ -103,6 +108,21 @@ Epilogue(p) == << I(<<"mov", p + 3, 1>>) >> \o (IF p >= 2 THEN FoldChunks(p) ELS
 Body(s, p, n) ==
   CASE s = "straight" -> << <<"B", 3 * n>> >>
     [] s = "tiny" -> << <<"B", n>> >>
+    (* three diamonds in a loop; the two arms of each pin DIFFERENT values to the same register (shift count in CL, first *)
+    (* call argument register): at the merge the two live values sit in each other's place and must be swapped          *)
+    (* four small loops whose bodies pin values to fixed registers (CL, rdx:rax, argument / return registers): at every    *)
+    (* back edge the header's assignment must be re-established, which is where the allocator exchanges registers        *)
+    [] s = "swapl" -> << <<"B", n>>,
+                         I(<<"movi", p + 1, 2>>), I(<<"label", 1>>), <<"F", "qsh">>, <<"F", "call4">>, <<"F", "call3">>, I(<<"subi", p + 1, 1>>), I(<<"jcci", "ne", p + 1, 0, 1>>),
+                         I(<<"movi", p + 1, 2>>), I(<<"label", 2>>), <<"F", "call4">>, <<"F", "qsh">>, <<"B", 2>>, I(<<"subi", p + 1, 1>>), I(<<"jcci", "ne", p + 1, 0, 2>>),
+                         I(<<"movi", p + 1, 2>>), I(<<"label", 3>>), <<"F", "div">>, <<"F", "call3">>, <<"F", "qsh">>, I(<<"subi", p + 1, 1>>), I(<<"jcci", "ne", p + 1, 0, 3>>),
+                         I(<<"movi", p + 1, 2>>), I(<<"label", 4>>), <<"F", "call4">>, <<"F", "qsh">>, <<"F", "mul">>, <<"B", 2>>, I(<<"subi", p + 1, 1>>), I(<<"jcci", "ne", p + 1, 0, 4>>),
+                         <<"B", n>> >>
+    [] s = "swapd" -> << <<"B", n>>, I(<<"movi", p + 1, 2>>), I(<<"label", 5>>),
+                         <<"J", 1>>, <<"F", "qsh">>, I(<<"jmp", 2>>), I(<<"label", 1>>), <<"F", "shl">>, I(<<"label", 2>>), <<"B", n>>,
+                         <<"J", 3>>, <<"F", "call3">>, I(<<"jmp", 4>>), I(<<"label", 3>>), <<"F", "call1">>, I(<<"label", 4>>), <<"B", n>>,
+                         <<"J", 6>>, <<"F", "qsh">>, I(<<"jmp", 7>>), I(<<"label", 6>>), <<"F", "qsh">>, I(<<"label", 7>>),
+                         <<"B", n>>, I(<<"subi", p + 1, 1>>), I(<<"jcci", "ne", p + 1, 0, 5>>), <<"B", n>> >>
     (* loop H -> B1 -> B2 -> H (B1 conditional): registers p+4..p+7 are defined before everything else, updated and read   *)
     (* ONLY in the header H and never after the loop, so their liveness inside the body comes only from the back edge    *)
     [] s = "hdrloop" -> << <<"B", n>>, I(<<"movi", p + 1, 3>>), I(<<"label", 1>>), <<"H", p + 4>>, <<"H", p + 5>>, <<"H", p + 6>>, <<"H", p + 7>>,
@@ -125,7 +145,7 @@ InvInit(s, p) == IF s = "hdrloop" THEN << I(<<"movi", p + 4, 4660>>), I(<<"movi"
 PlanFor(s, p, n) == InvInit(s, p) \o Prologue(p) \o Body(s, p, n) \o Epilogue(p)
 
 Init == /\ phase = "gen"
-        /\ P \in PSet /\ Q \in QSet /\ W \in WSet /\ sk \in Skeletons /\ hz \in Hazards
+        /\ P \in PSet /\ Q \in QSet /\ W \in WSet /\ T \in TSet /\ sk \in Skeletons /\ hz \in Hazards
         /\ plan = PlanFor(sk, P, BlockLen)
         /\ prog = <<>>
         /\ ms = <<>>
@@ -144,6 +164,14 @@ GenBlock ==
                    ELSE <<a, IF b = 0 THEN a ELSE b, IF c = 0 THEN a ELSE c, a, a, IF b = 0 THEN a ELSE b, IF c = 0 THEN a ELSE c, a>>
        IN prog' = prog \o Mk(ops[oi], P, a, b, c, k, imm, cc, args, xa, xb, qa, qb, o0)
   /\ plan' = <<[Head(plan) EXCEPT ![2] = @ - 1]>> \o Tail(plan)
+(* <<"F", op>>: one instruction of the given (fixed-register) kind with random operands *)
+GenFixed ==
+  /\ plan # <<>> /\ Head(plan)[1] = "F"
+  /\ \E a \in Ch(1..P) : \E b \in Ch((1..P) \ {a}) : \E c \in Ch((1..P) \ {a, b}) :
+     \E k \in Ch1(0..(NS - 1)) : \E imm \in Ch1(Imms) : \E cc \in Ch1(Conds) : \E xa \in Ch(1..Q) : \E xb \in Ch((1..Q) \ {xa}) :
+     \E qa \in Ch(1..W) : \E qb \in Ch((1..W) \ {qa}) : \E o0 \in Ch1(Op0s) :
+       prog' = prog \o Mk(Head(plan)[2], P, a, b, c, k, imm, cc, <<a, a, a, a, a, a, a, a>>, xa, xb, qa, qb, o0)
+  /\ plan' = Tail(plan)
 GenJump == /\ plan # <<>> /\ Head(plan)[1] = "J"
            /\ \E cc \in Ch1(Conds) : \E a \in Ch(1..P) : \E b \in Ch(1..P) :
                 prog' = Append(prog, <<"jcc", cc, a, b, Head(plan)[2]>>)
@@ -159,21 +187,21 @@ GenTable == /\ plan # <<>> /\ Head(plan)[1] = "T"
                  prog' = IF form = "old" THEN Append(prog, <<"jtab", a, Head(plan)[2]>>)
                          ELSE prog \o << <<"andi", a, 3>>, <<"jtabx", a, Head(plan)[2], form, ann>> >>
             /\ plan' = Tail(plan)
-Gen == /\ phase = "gen" /\ (GenLiteral \/ GenBlockEnd \/ GenBlock \/ GenJump \/ GenTable \/ GenHdr)
-       /\ UNCHANGED <<phase, P, Q, W, sk, hz, ms>>
+Gen == /\ phase = "gen" /\ (GenLiteral \/ GenBlockEnd \/ GenBlock \/ GenJump \/ GenTable \/ GenHdr \/ GenFixed)
+       /\ UNCHANGED <<phase, P, Q, W, T, sk, hz, ms>>
 
 Start == /\ phase = "gen" /\ plan = <<>>
          /\ phase' = "run"
          /\ ms' = [j \in 1..Len(Inputs) |-> InitMachineW(P + 7, Q, W, Inputs[j])]
-         /\ UNCHANGED <<P, Q, W, sk, hz, plan, prog>>
+         /\ UNCHANGED <<P, Q, W, T, sk, hz, plan, prog>>
 
 (* THE INTERPRETER: all machines (one per input) advance by one instruction *)
 Interp == /\ phase = "run" /\ ~(\A j \in 1..Len(ms) : ms[j].halted)
           /\ ms' = [j \in 1..Len(ms) |-> StepM(prog, ms[j])]
-          /\ UNCHANGED <<phase, P, Q, W, sk, hz, plan, prog>>
+          /\ UNCHANGED <<phase, P, Q, W, T, sk, hz, plan, prog>>
 Finish == /\ phase = "run" /\ \A j \in 1..Len(ms) : ms[j].halted
           /\ phase' = "done"
-          /\ UNCHANGED <<P, Q, W, sk, hz, plan, prog, ms>>
+          /\ UNCHANGED <<P, Q, W, T, sk, hz, plan, prog, ms>>
 
 Next == Gen \/ Start \/ Interp \/ Finish
 Spec == Init /\ [][Next]_vars
@@ -181,5 +209,5 @@ Spec == Init /\ [][Next]_vars
 (* the generator only produces well-defined programs (checked, not assumed) *)
 WellDefined == phase \in {"run", "done"} => \A j \in 1..Len(ms) : ~ms[j].bad
 Export == phase = "done" =>
-            PrintT(<<"PROG", <<sk, P, hz, Q, W>>, prog, Inputs, [j \in 1..Len(ms) |-> Result(ms[j])]>>)
+            PrintT(<<"PROG", <<sk, P, hz, Q, W, T>>, prog, Inputs, [j \in 1..Len(ms) |-> Result(ms[j])]>>)
 =============================================================================
